@@ -124,7 +124,9 @@ def run(chk):
             return [type(form)(kids, **{k: getattr(form, k) for k in form._extra_kwargs})]
         return [form]
     env = {"v": 7, "w": [1, "s"], "n": None, "e": []}
-    atoms = ["~v", "~@w", "~@n", "~@e", "k", "`(i ~v)", "`(i ~~v)", "`(i ~@~w)", "'~v", "[~v ~@w]", "{~v 1}", "#(~@w)", "#{~v}"]
+    atoms = ["~v", "~@w", "~@n", "~@e", "k", "`(i ~v)", "`(i ~~v)", "`(i ~@~w)", "'~v", "[~v ~@w]", "{~v 1}", "#(~@w)", "#{~v}",
+             # a level-0 splice as the direct argument of a still-quoted unquote / unquote-splice / quasiquote, falsy values included
+             "`(i ~~@n j)", "`(i ~~@w)", "`(i ~@~@e j)", "`(i ~~@e)", "``(i ~~~@n)"]
     templates = []
     for a, b in itertools.product(atoms, repeat=2):
         templates.append(f"`(h {a} {b})")
@@ -145,8 +147,23 @@ def run(chk):
             bad.append((src, type(e).__name__, str(e)[:80]))
         chk.case(src)
     chk.ob("e2e/real evaluation of generated templates equals the reference substitution", not bad, "cpython-oracle", "bounded",
-           detail=str(bad[:3]))
+           detail=str(bad[:3]), replay={"confirmed": True, "input": bad[0][0], "observed": bad[0][1], "expected": bad[0][2]} if bad else None)
     chk.extra["templates"] = len(templates)
+    # the code inside an unquote is the user's own: what the template around it looks like must not change its meaning
+    bad2 = []
+    for src, want_repr in (('`f"{~f"{t !r}" !s}"', '\'f"{"\'q\'" !s}"'), ('`f"{~(+ f"{t !r}" "z") :>9}"', '\'f"{"\'q\'z" :>9}"'),
+                           ('`#[f[{~f"{t !a}"}]f]', '\'#[f[{"\'q\'"}]f]')):
+        mod = types.ModuleType("hv_c31f")
+        mod.t = "q"
+        try:
+            got = hy.repr(hy.as_model(hy.eval(hy.read(src), module=mod, locals=mod.__dict__)))
+        except Exception as e:  # noqa: BLE001
+            got = f"{type(e).__name__}: {e}"
+        chk.case(src)
+        if got != want_repr:
+            bad2.append((src, got, want_repr))
+    chk.ob("e2e/an f-string inside an unquote inside a quoted f-string field is evaluated with its own conversion", not bad2, "cpython-oracle",
+           "bounded", detail=str(bad2[:2]), replay={"confirmed": True, "input": bad2[0][0], "observed": bad2[0][1], "expected": bad2[0][2]} if bad2 else None)
     chk.fn("hy/core/result_macros.py::render_quoted_form", "hy/core/result_macros.py::compile_quote")
     chk.trust("model constructors (C26)", "as_model promotion (C29)", "hy.eval of constructor calls (C01, C39)")
     # canary: a reference with the wrong level delta
